@@ -107,11 +107,11 @@ def to_chain_structure(qc, setup="linear"):
                     ):
                         if end == gate.controls[0]:
                             temp.add_gate(
-                                gate.name, targets=[i], controls=[i + 1]
+                                gate.name, targets=[i + 1], controls=[i]
                             )
                         else:
                             temp.add_gate(
-                                gate.name, targets=[i + 1], controls=[i]
+                                gate.name, targets=[i], controls=[i + 1]
                             )
 
                     elif (
